@@ -47,6 +47,7 @@ def run(ctx):
     from rules import c04
     ctx.rule("C05.R11", "the capture analysis finds every name the function body reads: same positions as the evaluator's reads, every expression child visited, binder arms work on a copy of the bound set (a parameter of an inner function must not hide a later free occurrence of the same name: it would stay a bare, unbound name in the emitted source)", floor=8)
     c04.free_variable_rule(ctx, "C05.R11", core)
+    c04.capture_by_name(ctx, "C05.R11", core)
     # R12: a captured negative number is written as prefix minus applied to a literal
     ctx.rule("C05.R12", "the emitter writes a negative number (captured or literal) as a bare `-2`, which the grammar reads as prefix minus applied to 2: that is the same number in every operand position only while prefix operators bind tighter than every infix operator, i.e. build_pratt_parser registers the prefix group after all infix groups", floor=1)
     from rules import c10
